@@ -59,6 +59,19 @@ func safeTParm(s string, ps []interface{}) (out string, pan any) {
 	return tparmTI.TParm(s, ps...), nil
 }
 
+// safeTParmOn evaluates on another Terminfo value: static variables belong to the process,
+// not to the description through which TParm happens to be entered.
+func safeTParmOn(ti *terminfo.Terminfo, s string, ps []interface{}) (out string, pan any) {
+	defer func() {
+		if e := recover(); e != nil {
+			pan = e
+		}
+	}()
+	return ti.TParm(s, ps...), nil
+}
+
+var tparmOthers = []*terminfo.Terminfo{{Name: "other-1"}, {Name: "other-2"}}
+
 func valsStr(ps []tiref.Val) string {
 	var ss []string
 	for _, p := range ps {
@@ -279,6 +292,30 @@ func C07(r *core.Run) {
 		}
 	})
 
+	// static variables across calls, explicitly: stored in one call, read in a later one, through the
+	// same and through different Terminfo values; a counter kept in a static variable
+	for v := 'A'; v <= 'Z'; v++ {
+		for trial, tis := range [][2]*terminfo.Terminfo{{tparmTI, tparmTI}, {tparmOthers[0], tparmOthers[1]}, {tparmTI, tparmOthers[0]}} {
+			val := 1000 + int(v)*3 + trial
+			_, p1 := safeTParmOn(tis[0], fmt.Sprintf("%%p1%%P%c", v), []interface{}{val})
+			_, _ = safeTParmOn(tis[1], "%p1%d", []interface{}{7}) // an unrelated call in between
+			got, p2 := safeTParmOn(tis[1], fmt.Sprintf("%%g%c%%d", v), nil)
+			r.CaseN(1, 1)
+			if p1 != nil || p2 != nil || got != fmt.Sprint(val) {
+				r.Violate("static-across-calls", fmt.Sprintf("%%P%c stored %d in one TParm call (description %q); %%g%c in a later call (description %q) gives %q (panics %v %v)", v, val, tis[0].Name, v, tis[1].Name, got, p1, p2), nil)
+				break
+			}
+		}
+	}
+	_, _ = safeTParm("%{0}%PR", nil)
+	for k := 1; k <= 6; k++ {
+		got, pan := safeTParmOn([]*terminfo.Terminfo{tparmTI, tparmOthers[0], tparmOthers[1]}[k%3], "%gR%{1}%+%PR%gR%d", nil)
+		r.CaseN(1, 1)
+		if pan != nil || got != fmt.Sprint(k) {
+			r.Violate("static-across-calls:counter", fmt.Sprintf("a counter kept in %%PR and incremented once per call, calls alternating over three descriptions: call %d gives %q (panic %v)", k, got, pan), nil)
+			break
+		}
+	}
 	// static variables: sequences of programs sharing %P[A-Z], single-threaded
 	// because tcell keeps them in a package-level array
 	nseq := r.Pick(5000, 200000)
@@ -295,7 +332,13 @@ func C07(r *core.Run) {
 			p := tiref.Gen(rg, tiref.GenOpts{Statics: true})
 			prog := p.String()
 			ref := tiref.Eval(prog, p.Params, &st)
-			got, pan := safeTParm(prog, toIface(p.Params))
+			got, pan := "", any(nil)
+			if i%2 == 1 {
+				// every other sequence hops between Terminfo values from call to call
+				got, pan = safeTParmOn(tparmOthers[k%2], prog, toIface(p.Params))
+			} else {
+				got, pan = safeTParm(prog, toIface(p.Params))
+			}
 			trace = append(trace, fmt.Sprintf("%q(%s)", prog, valsStr(p.Params)))
 			if len(ref.Faults) > 0 {
 				r.Count("excluded_ref_faults", 1)
